@@ -133,7 +133,7 @@ PROPS = {'C18': {'title': 'Inflights window is a bounded FIFO under resizing',
  'C13': {'title': 'Replication flow control and well-formed append/heartbeat messages',
          'modules': ['top', 'prelude', 'pb', 'inflights', 'progress', 'quorum', 'tracker', 'log_unstable', 'storage_trait', 'raft_log', 'raft'],
          'body': {'P': ['inflights', 'progress'], 'S': ['inflights', 'progress']},
-         'cone': {'P': ['log_unstable', 'raft_log'], 'S': ['log_unstable', 'raft', 'raft_log']},
+         'cone': {'P': ['log_unstable', 'raft_log'], 'S': ['log_unstable', 'raft', 'raft_log', 'tracker']},
          'modes': ['P', 'S'],
          'claim': 'PARTIAL (every per-call clause; "toward each follower over time" is carried by the representation invariants count <= cap and by the '
                   'contracts of the send path)',
@@ -230,7 +230,7 @@ PROPS = {'C18': {'title': 'Inflights window is a bounded FIFO under resizing',
                          'contract over a byte-keyed view of its table: the five std HashMap operations with Vec<u8> / &[u8] keys are specified helpers '
                          '(verif_ri_*)',
                          'specified helpers for std / protobuf calls (R9) and the three cut texts (R10) listed in the evidence file'],
-         'cone': {'S': ['raft']}},
+         'cone': {'S': ['raft', 'tracker']}},
  'C07': {'title': 'Ready contract: exact, ordered, persisted-only hand-off of entries',
          'modules': ['top', 'prelude', 'pb', 'inflights', 'progress', 'quorum', 'tracker', 'log_unstable', 'storage_trait', 'raft_log', 'raft', 'raw_node'],
          'body': {'P': ['log_unstable', 'raft_log'], 'S': ['log_unstable', 'raft_log', 'raw_node']},
@@ -343,7 +343,7 @@ PROPS = {'C18': {'title': 'Inflights window is a bounded FIFO under resizing',
                          'derive(Clone) of tracker::Configuration copies the sets (R9)',
                          'protobuf ConfChangeSingle / ConfChangeType stubs']},
  'C15': {'title': 'Snapshot install and log compaction preserve state and safety',
-         'modules': ['top', 'prelude', 'pb', 'inflights', 'progress', 'quorum', 'tracker', 'log_unstable', 'storage_trait', 'raft_log', 'raft'],
+         'modules': ['top', 'prelude', 'pb', 'inflights', 'progress', 'quorum', 'tracker', 'log_unstable', 'storage_trait', 'raft_log', 'raft', 'raw_node'],
          'body': {'P': ['log_unstable', 'raft_log', 'progress'], 'S': ['log_unstable', 'raft_log', 'progress']},
          'modes': ['P', 'S'],
          'claim': 'PARTIAL (install decision, log/commit effect, request rule, leader-side send/resume rules)',
@@ -361,7 +361,7 @@ PROPS = {'C18': {'title': 'Inflights window is a bounded FIFO under resizing',
                          'contract over a byte-keyed view of its table: the five std HashMap operations with Vec<u8> / &[u8] keys are specified helpers '
                          '(verif_ri_*)',
                          'specified helpers for std / protobuf calls (R9) and the three cut texts (R10) listed in the evidence file'],
-         'cone': {'P': [], 'S': ['raft']},
+         'cone': {'P': [], 'S': ['raft', 'raw_node', 'tracker']},
          'bounded': []},
  'C09': {'title': 'Membership changes: one at a time, config is a function of applied log',
          'modules': ['top',
@@ -376,7 +376,8 @@ PROPS = {'C18': {'title': 'Inflights window is a bounded FIFO under resizing',
                      'storage_trait',
                      'raft_log',
                      'raft',
-                     'raft_conf'],
+                     'raft_conf',
+                     'raw_node'],
          'body': {'S': []},
          'modes': ['S'],
          'claim': 'PARTIAL ((a) one membership change at a time, (b) no election with an unapplied change, (d) non-voters never campaign; (c) configuration as '
@@ -402,7 +403,7 @@ PROPS = {'C18': {'title': 'Inflights window is a bounded FIFO under resizing',
                          '(verif_ri_*)',
                          'specified helpers for std / protobuf calls (R9) and the three cut texts (R10) listed in the evidence file',
                          'protobuf decoding of proposed membership changes (uninterpreted)'],
-         'cone': {'S': ['raft', 'raft_conf']},
+         'cone': {'S': ['raft', 'raft_conf', 'raw_node', 'tracker', 'confchange', 'pb']},
          'bounded': ['K-ext Kani c09_has_unapplied_conf_changes: real text of RaftLog::scan + has_unapplied_conf_changes, logs <= 3 entries, every page '
                      'split']},
  'C17': {'title': 'Leadership transfer hands off safely and never wedges the leader',
